@@ -1,6 +1,10 @@
 import Dashu.Proofs.NT.ModHom
 import Dashu.Proofs.NT.ModPowLarge
 import Dashu.Proofs.NT.ModContracts
+import Dashu.Proofs.NT.ModKernels
+import Dashu.Proofs.NT.ModInvLarge
+import Dashu.Gen.Modular
+import Mathlib.Order.Compare
 /-
   C13 — Reduced-ring arithmetic is the homomorphic image of integer arithmetic.
 
@@ -9,6 +13,12 @@ import Dashu.Proofs.NT.ModContracts
   integers `a b` of any sign and size and all exponents; nothing is bounded.  `res m a` is
   `Int.emod a m` as a natural number (`res_cast`).  The division primitives of num-modular and
   dashu's multi-word multiply/divide kernels enter as their exact contracts (`%`, `*`).
+
+  Round 4: the word-level division kernels of `reduce` (`rem_word`, the two-step `rem_dword`,
+  `fast_rem_by_normalized_(d)word`), of the single- and double-word `mul`/`sqr`, and `inv_large` (through
+  C12's mirrored extended-gcd kernels) are mirrored in `Model/NT/ModKernels.lean`, `ModInvLarge.lean`,
+  executed by the driver, and proved equal to the `%`-level definitions the theorems below are about
+  (`reduce_kernels`, `mul_sqr_kernels`, `pow_kernels`, `inv_large_range`, `inv_large_mirror`, `inv_div_kernels`).
 -/
 namespace Dashu.Props.C13
 open Dashu.Model Dashu.Model.NT
@@ -305,6 +315,29 @@ theorem different_instances_same_modulus (W m : Nat) (hm : m ≠ 0) :
   have := (Ring.new_m h1).2; have := (Ring.new_m h2).2
   subst he; omega
 
+/-- `PartialEq for Reduced`: two reduced integers compare equal exactly when they are congruent mod `m`. -/
+theorem eq_spec (W : Nat) (r : Ring) (hwf : r.WF W) (a b : Int) :
+    (reduceInt W r a).beq (reduceInt W r b) = .ok (decide (a % (r.m : Int) = b % (r.m : Int))) := by
+  have hm := hwf.mpos
+  have ha := reduceInt_raw hwf a; have hb := reduceInt_raw hwf b
+  have hra := (Dashu.Props.C13.reduce_spec W r hwf a).2.2.2.2
+  have hrb := (Dashu.Props.C13.reduce_spec W r hwf b).2.2.2.2
+  have hp : 0 < 2 ^ r.k := Nat.two_pow_pos _
+  unfold Elem.beq sameRing
+  rw [hra, hrb, ha, hb]
+  simp only [decide_true, if_true]
+  congr 1
+  rw [Bool.eq_iff_iff]
+  simp only [beq_iff_eq, decide_eq_true_eq]
+  rw [← res_cast hm a, ← res_cast hm b]
+  constructor
+  · intro h
+    have := Nat.eq_of_mul_eq_mul_right hp h
+    rw [this]
+  · intro h
+    have : res r.m a = res r.m b := by exact_mod_cast h
+    rw [this]
+
 -- ---------------------------------------------------------------- the division primitives behind `%`
 
 /-- single-word rings: at the arguments dashu passes (`rem_word` with a shift, `mul`, `sqr`), num-modular's
@@ -394,5 +427,244 @@ theorem reducer_add_asIs_counterexample :
       ¬ Valid r (rAddAsIs 64 r (1 * 2 ^ r.k) ((2 ^ 188 - 1) * 2 ^ r.k)) ∧
       rAdd r (1 * 2 ^ r.k) ((2 ^ 188 - 1) * 2 ^ r.k) = 0 := by
   refine ⟨_, rfl, by decide, by decide, by decide⟩
+
+-- ---------------------------------------------------------------- round 4: the kernels behind `%`, mirrored
+
+/-- `div::fast_rem_by_normalized_word` (top word by `div_rem_1by1`, every lower word by the mirrored
+    Möller–Granlund `div_rem_2by1`) returns the remainder of the whole number — any number of words,
+    any normalised word divisor. -/
+theorem fast_rem_by_normalized_word (W d : Nat) (hW : 1 ≤ W) (hd1 : 2 ^ W ≤ 2 * d) (hd2 : d < 2 ^ W)
+    (ws : List Nat) (hne : ws ≠ []) (hws : IsWords W ws) :
+    fastRemByNormalizedWord W d (NumModular.invertWord W d) ws = val W ws % d :=
+  fastRemByNormalizedWord_spec W d hW hd1 hd2 ws hne hws
+
+/-- `div::fast_rem_by_normalized_dword` (top double word by `div_rem_2by2`, lower pairs by the mirrored
+    `div_rem_4by2`, a left-over word by `div_rem_3by2`) returns the remainder of the whole number. -/
+theorem fast_rem_by_normalized_dword (W d : Nat) (hW : 1 ≤ W) (hd1 : 2 ^ (2 * W) ≤ 2 * d)
+    (hd2 : d < 2 ^ (2 * W)) (ws : List Nat) (hlen : 2 ≤ ws.length) (hws : IsWords W ws) :
+    fastRemByNormalizedDword W d (NumModular.invertDoubleWord W d) ws = val W ws % d :=
+  fastRemByNormalizedDword_spec W d hW hd1 hd2 ws hlen hws
+
+/-- non-vacuity: a normalised 64-bit divisor and a 5-word number (odd count: 3by2 tail), evaluated -/
+example : fastRemByNormalizedWord 64 (2 ^ 63 + 12345) (NumModular.invertWord 64 (2 ^ 63 + 12345))
+      (natWords 64 (3 ^ 190)) = 3 ^ 190 % (2 ^ 63 + 12345) ∧
+    fastRemByNormalizedDword 64 (2 ^ 127 + 99) (NumModular.invertDoubleWord 64 (2 ^ 127 + 99))
+      (natWords 64 (3 ^ 190)) = 3 ^ 190 % (2 ^ 127 + 99) ∧ (natWords 64 (3 ^ 190)).length = 5 := by
+  refine ⟨by decide +kernel, by decide +kernel, by decide +kernel⟩
+
+/-- **`ConstDivisor::reduce` as the code runs it** (what the driver executes): `rem_word`, the two-step
+    `rem_dword` through `shl_dword`, `rem_large` = `fast_rem_by_normalized_(d)word` + the final shift step,
+    all through num-modular's mirrored reciprocal dividers, store exactly what the `%`-level model
+    stores — for every ring `ConstDivisor::new` builds, every natural and every integer.  Hence every
+    theorem above about `reduceInt` is a theorem about `reduceIntK`. -/
+theorem reduce_kernels (W id m : Nat) (hW : 0 < W) (r : Ring) (hnew : Ring.new W id m = .ok r) :
+    (∀ x : Nat, rawOfNatK W r x = rawOfNat W r x) ∧ (∀ a : Int, reduceIntK W r a = reduceInt W r a) :=
+  ⟨rawOfNatK_eq hW hnew, reduceIntK_eq hW hnew⟩
+
+/-- `PreMulInv2by1::{mul,sqr}` / `PreMulInv3by2::{mul,sqr}` through the mirrored `div_rem_2by1 / 4by2`
+    (what the driver executes for `*` and `sqr`) = the `%`-level product on valid operands. -/
+theorem mul_sqr_kernels (W : Nat) (r : Ring) (hwf : r.WF W) (x y : Nat) (hx : Valid r x) (hy : Valid r y) :
+    mulRawK W r x y = mulRaw W r x y ∧ sqrRawK W r x = sqrRaw W r x := by
+  obtain ⟨u, hu, rfl⟩ := hx
+  obtain ⟨v, hv, rfl⟩ := hy
+  exact ⟨mulRawK_eq hwf hu hv, sqrRawK_eq hwf hu⟩
+
+/-- `pow` as the driver executes it (single- and double-word rings: every `sqr` / `mul` of `pow_word` /
+    `pow_helper` through the mirrored `div_rem_2by1 / 4by2`; multi-word rings: the windowed loop) is
+    the `pow` of `hom_pow`. -/
+theorem pow_kernels (W id m : Nat) (hW : 0 < W) (r : Ring) (hnew : Ring.new W id m = .ok r) (a : Int) (e : Nat) :
+    (reduceIntK W r a).powK W e = (reduceInt W r a).pow W e := by
+  have hwf := Ring.new_wf hW hnew
+  have ha := reduceInt_raw hwf a
+  have hra := (Dashu.Props.C13.reduce_spec W r hwf a).2.2.2.2
+  rw [reduceIntK_eq hW hnew]
+  unfold Elem.powK Elem.pow
+  rw [hra, ha, powRawK_eq hwf (res_lt hwf.mpos a)]
+
+/-- **the range claim of `inv_large`** (`debug_assert!(inv.is_valid(ring))`): for `0 < rhs < lhs` the
+    cofactor magnitude `|b|` that `gcd::gcd_ext_in_place` (Lehmer, C12's mirror) and
+    `gcd::gcd_ext_word/_dword` leave in the `lhs` buffer is `< lhs`. -/
+theorem inv_large_range (W : Nat) (hW : 0 < W) (lhs rhs : Nat) (h0 : 0 < rhs) (hlt : rhs < lhs) :
+    (∀ res, lehmerExt W lhs rhs = .ok res → res.2.1 < lhs) ∧
+    (∀ g a bMag bNeg, gcdExtSmall W lhs rhs = .ok (g, a, bMag, bNeg) → bMag < lhs) :=
+  ⟨fun res h => lehmerExt_range W hW lhs rhs h0 hlt res h,
+   fun _ _ _ _ h => gcdExtSmall_range W h0 hlt h⟩
+
+/-- **`inv_large` is a corollary of C12's `lehmer_gcd_ext_correct` + the range claim**: on every valid
+    element of a multi-word ring the mirrored `inv_large` never fails and returns what `inv_spec` is
+    about. -/
+theorem inv_large_mirror (W : Nat) (r : Ring) (hwf : r.WF W) (hk : r.kind = .large) (x : Nat)
+    (hx : Valid r x) : invLarge W r x = .ok (invRaw r x) := by
+  obtain ⟨u, hu, rfl⟩ := hx
+  exact invLarge_eq hwf hk hu
+
+/-- `inv` and `/` as the driver executes them (mirrored reduce, mirrored `inv_large`, mirrored
+    single- and double-word product) are the `inv` and `/` of `inv_spec` / `div_spec`. -/
+theorem inv_div_kernels (W id m : Nat) (hW : 0 < W) (r : Ring) (hnew : Ring.new W id m = .ok r) (a b : Int) :
+    (reduceIntK W r a).invK W = .ok ((reduceInt W r a).inv) ∧
+    (reduceIntK W r a).divK W (reduceIntK W r b) = (reduceInt W r a).div W (reduceInt W r b) := by
+  have hwf := Ring.new_wf hW hnew
+  have hm := hwf.mpos
+  have hinvK : ∀ c : Int, (reduceInt W r c).invK W = .ok ((reduceInt W r c).inv) := by
+    intro c
+    have hc := reduceInt_raw hwf c
+    have hrc := (Dashu.Props.C13.reduce_spec W r hwf c).2.2.2.2
+    unfold Elem.invK Elem.inv
+    rw [hrc, hc, invRawK_eq hwf (res_lt hm c)]
+  rw [reduceIntK_eq hW hnew, reduceIntK_eq hW hnew]
+  refine ⟨hinvK a, ?_⟩
+  unfold Elem.divK Elem.div
+  rw [hinvK b]
+  cases hi : (reduceInt W r b).inv with
+  | none => rfl
+  | some i =>
+    simp only []
+    obtain ⟨h1, ⟨t, ht, hraw⟩, _⟩ := (Dashu.Props.C13.inv_spec W r hwf b).2 i hi
+    have ha := reduceInt_raw hwf a
+    have hra := (Dashu.Props.C13.reduce_spec W r hwf a).2.2.2.2
+    unfold Elem.mulK Elem.mul
+    rw [hra, ha, hraw, mulRawK_eq hwf (res_lt hm a) ht]
+
+/-- non-vacuity of `inv_large_mirror` / `inv_large_range`: a 3-word ring with a shift, residues of one,
+    two and three words, invertible and not -/
+example : ∃ r, Ring.new 64 0 ((2 ^ 64 + 1) * (2 ^ 100 + 277)) = .ok r ∧ r.kind = .large ∧ r.k ≠ 0 ∧
+    Valid r (5 * 2 ^ r.k) ∧ Valid r ((2 ^ 100 + 1) * 2 ^ r.k) ∧ Valid r ((2 ^ 64 + 1) * 3 * 2 ^ r.k) ∧
+    invLarge 64 r ((2 ^ 64 + 1) * 3 * 2 ^ r.k) = .ok none ∧
+    (match invLarge 64 r ((2 ^ 150 + 3) * 2 ^ r.k) with | .ok (some _) => true | _ => false) = true :=
+  ⟨_, rfl, rfl, by decide, by decide, by decide, by decide, by decide +kernel, by decide +kernel⟩
+
+-- ---------------------------------------------------------------- Tie A: decision logic regenerated from integer/src/modular
+
+theorem glue_gt (x y : Int) : GluePrelude.gt_ x y = decide (y < x) := by
+  unfold GluePrelude.gt_
+  rw [Bool.eq_iff_iff]
+  simp [compare_gt_iff_gt]
+
+theorem glue_lt (x y : Int) : GluePrelude.lt_ x y = decide (x < y) := by
+  unfold GluePrelude.lt_
+  rw [Bool.eq_iff_iff]
+  simp [compare_lt_iff_lt]
+
+theorem glue_le (x y : Int) : GluePrelude.le_ x y = decide (x ≤ y) := by
+  unfold GluePrelude.le_
+  rw [Bool.eq_iff_iff]
+  simp [compare_gt_iff_gt]
+
+/-- `mul_normalized` / `sqr_normalized`: the model takes the long division exactly when the test
+    regenerated from `integer/src/modular/mul.rs` (`na + nb > n`, `na * 2 > n`) says so. -/
+theorem mul_normalized_guard_gen (W : Nat) (r : Ring) (a b : Nat) :
+    mulNormalized W r a b =
+      (if Gen.Modular.mul_normalized_needs_division r.n (wordLen W a) (wordLen W b) = true
+         then (a * b / 2 ^ r.k) % r.M
+       else if a * b / 2 ^ r.k ≥ r.M then a * b / 2 ^ r.k - r.M else a * b / 2 ^ r.k) ∧
+    Gen.Modular.sqr_normalized_needs_division r.n (wordLen W a) =
+      Gen.Modular.mul_normalized_needs_division r.n (wordLen W a) (wordLen W a) := by
+  unfold Gen.Modular.mul_normalized_needs_division Gen.Modular.sqr_normalized_needs_division mulNormalized
+  simp only [glue_gt, GluePrelude.add_, GluePrelude.mul_]
+  constructor
+  · by_cases h : wordLen W a + wordLen W b > r.n
+    · have : (r.n : Int) < (wordLen W a : Int) + (wordLen W b : Int) := by exact_mod_cast h
+      simp [h, this]
+    · have : ¬ (r.n : Int) < (wordLen W a : Int) + (wordLen W b : Int) := by
+        intro hc; apply h; exact_mod_cast hc
+      simp [h, this]
+  · congr 1
+    rw [mul_two]
+
+/-- `choose_pow_window_len`: the model is the loop over the regenerated cost model, start value, loop
+    guard (`window_size + 1 < WORD_BITS.min(usize::BIT_SIZE)`, `usize` of 64 bits) and stop test. -/
+theorem choose_pow_window_len_gen (W n : Nat) :
+    chooseWindowLen W n =
+      chooseWindowLen.go W (fun ws => Gen.Modular.pow_window_cost ws n) W Gen.Modular.pow_window_init ∧
+    (∀ ws : Nat, decide (ws + 1 < min W 64) = Gen.Modular.pow_window_continue ws W 64) ∧
+    (∀ c c2 : Nat, decide (c ≤ c2) = Gen.Modular.pow_window_stop c c2) := by
+  refine ⟨rfl, ?_, ?_⟩
+  · intro ws
+    unfold Gen.Modular.pow_window_continue
+    simp only [glue_lt, GluePrelude.add_, GluePrelude.min]
+    rw [Bool.eq_iff_iff]
+    simp only [decide_eq_true_eq]
+    by_cases h : W ≤ 64
+    · have h' : (W : Int) ≤ 64 := by exact_mod_cast h
+      rw [Nat.min_eq_left h, if_pos h']
+      constructor <;> intro hh <;> omega
+    · have h' : ¬ (W : Int) ≤ 64 := by omega
+      rw [Nat.min_eq_right (by omega), if_neg h']
+      constructor <;> intro hh <;> omega
+  · intro c c2
+    unfold Gen.Modular.pow_window_stop
+    rw [glue_le, Bool.eq_iff_iff]
+    simp only [decide_eq_true_eq]
+    omega
+
+/-- `inv_large`: the model's `raw_len` dispatch is the `match raw_len { 0 => None, 1 => gcd_ext_word,
+    2 => gcd_ext_dword, _ => gcd_ext_in_place }` regenerated from `integer/src/modular/div.rs`
+    (`gcdExtSmall` is C12's model of both `gcd_ext_word` and `gcd_ext_dword`). -/
+theorem inv_large_dispatch_gen (W : Nat) (r : Ring) (raw : Nat) :
+    (Gen.Modular.inv_large_arm (wordLen W (raw / 2 ^ r.k)) = "None" → invLarge W r raw = .ok none) ∧
+    (Gen.Modular.inv_large_arm (wordLen W (raw / 2 ^ r.k)) = "gcd_ext_word" ∨
+      Gen.Modular.inv_large_arm (wordLen W (raw / 2 ^ r.k)) = "gcd_ext_dword" →
+        invLarge W r raw = match gcdExtSmall W (r.M / 2 ^ r.k) (raw / 2 ^ r.k) with
+          | .error k => .error k
+          | .ok (g, _, bMag, bNeg) => .ok (invLargeFinish r (g == 1) bMag bNeg)) ∧
+    (Gen.Modular.inv_large_arm (wordLen W (raw / 2 ^ r.k)) = "gcd_ext_in_place" →
+        invLarge W r raw = match lehmerExt W (r.M / 2 ^ r.k) (raw / 2 ^ r.k) with
+          | .error k => .error k
+          | .ok (g, bMag, bNeg) => .ok (invLargeFinish r (g == 1) bMag bNeg)) := by
+  unfold invLarge
+  simp only []
+  generalize wordLen W (raw / 2 ^ r.k) = l
+  match l with
+  | 0 => exact ⟨fun _ => by simp, fun h => by rcases h with h | h <;> exact absurd h (by decide),
+      fun h => absurd h (by decide)⟩
+  | 1 =>
+    refine ⟨fun h => absurd h (by decide), fun _ => ?_, fun h => absurd h (by decide)⟩
+    simp only [Nat.succ_ne_zero, if_false, Nat.one_le_ofNat, if_true]
+    cases gcdExtSmall W (r.M / 2 ^ r.k) (raw / 2 ^ r.k) with
+    | error k => rfl
+    | ok v => obtain ⟨g, a, bm, bn⟩ := v; rfl
+  | 2 =>
+    refine ⟨fun h => absurd h (by decide), fun _ => ?_, fun h => absurd h (by decide)⟩
+    simp only [Nat.succ_ne_zero, if_false, Nat.le_refl, if_true]
+    cases gcdExtSmall W (r.M / 2 ^ r.k) (raw / 2 ^ r.k) with
+    | error k => rfl
+    | ok v => obtain ⟨g, a, bm, bn⟩ := v; rfl
+  | j + 3 =>
+    have e : Gen.Modular.inv_large_arm (j + 3) = "gcd_ext_in_place" := rfl
+    rw [e]
+    refine ⟨fun h => absurd h (by decide), fun h => by rcases h with h | h <;> exact absurd h (by decide),
+      fun _ => ?_⟩
+    have h3 : ¬ j + 3 ≤ 2 := by omega
+    simp only [Nat.succ_ne_zero, if_false, h3]
+    cases lehmerExt W (r.M / 2 ^ r.k) (raw / 2 ^ r.k) with
+    | error k => rfl
+    | ok v => obtain ⟨g, bm, bn⟩ := v; rfl
+
+/-- `inv_large`, multi-word arm: the regenerated "gcd is one" test `g_len == 1 && raw[0] == 1` on the word
+    length and the lowest word of `g` is `g == 1` (what the model tests). -/
+theorem inv_large_gcd_is_one_gen (W : Nat) (hW : 0 < W) (g : Nat) :
+    Gen.Modular.inv_large_gcd_is_one (wordLen W g) ((g % 2 ^ W : Nat) : Int) = (g == 1) := by
+  unfold Gen.Modular.inv_large_gcd_is_one
+  simp only [GluePrelude.eq_]
+  rw [Bool.eq_iff_iff]
+  simp only [Bool.and_eq_true, decide_eq_true_eq, beq_iff_eq]
+  have h1 : (1 : Nat) < 2 ^ W := Nat.one_lt_two_pow (by omega)
+  constructor
+  · rintro ⟨hl, hlow⟩
+    have hl' : wordLen W g = 1 := by exact_mod_cast hl
+    have hlt := lt_two_pow_wordLen hW g
+    rw [hl', Nat.mul_one] at hlt
+    have : g % 2 ^ W = 1 := by exact_mod_cast hlow
+    rw [Nat.mod_eq_of_lt hlt] at this
+    exact this
+  · rintro rfl
+    have hle : wordLen W 1 ≤ 1 := wordLen_le_of_lt hW (by rw [Nat.mul_one]; exact h1)
+    have hge : wordLen W 1 ≠ 0 := by
+      intro h0
+      have := lt_two_pow_wordLen hW 1
+      rw [h0] at this; simp at this
+    have : wordLen W 1 = 1 := by omega
+    rw [this, Nat.mod_eq_of_lt h1]
+    exact ⟨rfl, rfl⟩
 
 end Dashu.Props.C13
